@@ -60,6 +60,15 @@ func VerifC03(shape int, T int, ascii int, twin int) {
 	text := vText("text", 0, T, ascii != 0)
 	vNote("source", src)
 	vNote("text", text)
+	// an earlier run of the same program on another input of the same length (all line breaks) must leave
+	// nothing behind: what is asserted below is about this input alone
+	if len(text) > 0 {
+		other := make([]byte, len(text))
+		for i := range other {
+			other[i] = '\n'
+		}
+		v.Run(string(other))
+	}
 	ms := v.Run(text)
 	if twin != 0 && len(ms) > 0 {
 		vFail("TWIN reached the assertions")
